@@ -17,6 +17,7 @@
 //	sub       Subscriber.SyncAdChain: result, requests after the head request, latest-sync
 //	gethist   several head queries through ONE Syncer (each step judged as if it were the first)
 //	subhist   several SyncAdChain calls on ONE Subscriber (latest-sync threaded through)
+//	pubsched  the real Publisher under deterministic SetRoot / head-request interleavings
 //	both      every sub / subhist observation against C03's model AND C01's model of the chain
 //	          sync that follows (request log, latest-sync, store threaded through a history)
 //
@@ -34,6 +35,7 @@ import (
 	dssync "github.com/ipfs/go-datastore/sync"
 	logging "github.com/ipfs/go-log/v2"
 	"github.com/ipni/go-libipni/dagsync/ipnisync"
+	ic "github.com/libp2p/go-libp2p/core/crypto"
 	"github.com/libp2p/go-libp2p/core/peer"
 	"github.com/multiformats/go-multiaddr"
 
@@ -74,6 +76,11 @@ type replayT struct {
 	Expect  string `json:"expect,omitempty"`
 	Sig     string `json:"signature,omitempty"`
 	Note    string `json:"note,omitempty"`
+	// ipnisync.NewSync option set of the client ("" = default)
+	ClientOpt string `json:"client_options,omitempty"`
+	// pubsched: the publisher's roots and the schedule of SetRoot / head requests
+	Roots    []string `json:"roots,omitempty"`
+	Schedule []pstep  `json:"schedule,omitempty"`
 	// gethist / subhist: the responses served, in order, to ONE Syncer / ONE Subscriber
 	Steps []replayStep `json:"steps,omitempty"`
 }
@@ -91,6 +98,7 @@ func main() {
 	c.Family("sub", req, "sub_case_ok", 200)
 	c.Family("gethist", req, "gethist_case_ok", 60)
 	c.Family("subhist", req, "subhist_case_ok", 40)
+	c.Family("pubsched", req, "pubsched_case_ok", 40)
 	c.Family("both", []string{"From Lib Require Import Cid SymCrypto.", "From Model Require Import C03_SignedHead Compose_C03_C01."}, "both_case_ok", 150)
 
 	pool = keypool.New(c.Rng.Fork("pool"), 3)
@@ -104,6 +112,11 @@ func main() {
 	defer srv.ts.Close()
 	sharedSync = ipnisync.NewSync(mkLinkSystem(dssync.MutexWrap(datastore.NewMapDatastore())), nil)
 	defer sharedSync.Close()
+	defer func() {
+		for _, s := range syncs {
+			s.Close()
+		}
+	}()
 
 	if c.Replay != "" {
 		var r replayT
@@ -122,6 +135,8 @@ func main() {
 		"FlipByte at EVERY byte offset of the DAG-JSON encoding of one head per key type; truncations, malformed JSON, missing / extra / duplicate fields; HTTP 204/404/500. " +
 		"Each response goes through Decode+Validate, through Syncer.GetHead with expected = the honest signer / another identity / none, and (a subset) through Subscriber.SyncAdChain with latest-sync unset / an older block / the head itself and the peer ID given directly, only inside the address, or not at all. " +
 		"Publisher: every key x topic x root set / unset. " +
+		"Client options: the full scenario table (expected = signer / two other identities / none), unusable responses and two histories through Syncer.GetHead for every non-default ipnisync.NewSync option set (ClientAuthServerPeerID, retrying HTTP client, timeout, combinations). " +
+		"Publisher under concurrency: deterministic schedules with a private key whose Sign waits on a latch: head requests in flight (1..3, released in every order) while SetRoot is called once or twice (incl. to no root); every head request started after a SetRoot returned must serve a verifying head for exactly that root. " +
 		"Histories on ONE Syncer and on ONE Subscriber (16 per key type): a genuine head, then its key+signature on another CID / topic / another identity's head, with rejected responses and further genuine heads in between; every step judged as if it were the first. " +
 		"non-trivial = the response decodes to a head carrying a signature some pool key really made (the verdict depends on who signed what and on who is expected)"
 	genPayload(c)
@@ -131,6 +146,8 @@ func main() {
 	genMalformed(c)
 	genSubscriber(c)
 	genHistories(c)
+	genOptions(c)
+	genPublisherSchedules(c)
 }
 
 func peerStr(id peer.ID) string {
@@ -156,6 +173,7 @@ func runReplay(c *vlib.Ctx, r replayT) {
 		status = 200
 	}
 	sc := scenario{name: "replay", status: status, body: body, expect: r.Expect, sig: r.Sig}
+	curOpt = r.ClientOpt
 	switch r.Kind {
 	case "validate":
 		doValidate(c, sc)
@@ -198,6 +216,28 @@ func runReplay(c *vlib.Ctx, r replayT) {
 			}
 			doSubHist(c, "replay", exp, l0, steps)
 		}
+	case "pubsched":
+		kb, _ := hex.DecodeString(r.KeyPriv)
+		k, err := ic.UnmarshalPrivateKey(kb)
+		if err != nil {
+			panic(err)
+		}
+		var id *keypool.Identity
+		for _, it := range pool.Ids {
+			if it.Pub.Equals(k.GetPublic()) {
+				id = it
+			}
+		}
+		if id == nil {
+			id = pool.Add(r.KeyType, k)
+		}
+		var roots []cid.Cid
+		for _, s := range r.Roots {
+			rc, _ := cid.Decode(s)
+			roots = append(roots, rc)
+		}
+		fmt.Printf("  publisher %s topic=%q schedule %s\n", id.ID, r.Topic, schedName(r.Schedule))
+		doPubSched(c, id, r.Topic, roots, r.Schedule)
 	case "serve":
 		kb, _ := hex.DecodeString(r.KeyPriv)
 		var root cid.Cid
